@@ -18,10 +18,16 @@ func genC06(repo string) (string, error) {
 	if err != nil {
 		return "", err
 	}
+	// local names are canonical (v0, v1, … in order of first appearance; log and metric lines dropped), so that a renamed
+	// local or an added log line is not a change; every assignment to a local is part of the skeleton
+	hb, err := cl.Func("RaftCluster", "processRegionHeartbeat")
+	if err != nil {
+		return "", err
+	}
 	opt := goast.SkelOpt{
 		Calls: set("PreCheckPutRegion", "PutRegion", "DeleteRegion", "SaveRegion", "GetRegionEpoch", "collect",
 			"updateStoreStatusLocked", "Observe", "ClearDefunctRegion", "SortedPeersEqual", "SortedPeersStatsEqual"),
-		Assigns: set("saveKV", "saveCache", "isNew", "needSync", "overlaps", "origin", "storage", "coreCluster"),
+		Assigns: set(c07NormalizeFunc(hb)...),
 		Conds:   true,
 	}
 	if err := o.skeleton(cl, "RaftCluster", "processRegionHeartbeat", "skel_processRegionHeartbeat", opt); err != nil {
